@@ -67,6 +67,16 @@ void harness_rule(void)
 	cJSON_AddItemToObject(rule, "startsWith", str2(c, 'B')); cJSON_AddItemToObject(rule, "caseInsensitive", cJSON_CreateTrue()); expect_match = (lower((unsigned char)c) == 'a');
 #elif RULE == 15
 	cJSON_AddItemToObject(rule, "endsWith", str2(c, 'B')); cJSON_AddItemToObject(rule, "caseInsensitive", cJSON_CreateTrue()); expect_match = (lower((unsigned char)c) == 'a');
+#elif RULE == 16
+	/* a key that merely starts with the option's name is an unknown matcher, not the option */
+	cJSON_AddItemToObject(rule, "caseInsensitiveX", str2(c, 'b')); expect_refused = 1;
+#elif RULE == 17
+	cJSON_AddItemToObject(rule, "equals", str2(c, 'b')); cJSON_AddItemToObject(rule, "caseInsensitiveX", cJSON_CreateTrue()); expect_refused = 1;
+#elif RULE == 18
+	/* the option's name in another case is not the option: refused as an unknown matcher (never a half-built rule) */
+	cJSON_AddItemToObject(rule, "equals", str2(c, 'b')); cJSON_AddItemToObject(rule, "CaseInsensitive", cJSON_CreateTrue()); expect_refused = 1;
+#elif RULE == 19
+	cJSON_AddItemToObject(rule, "caseinsensitive", cJSON_CreateTrue()); cJSON_AddItemToObject(rule, "startsWith", str2(c, 'b')); expect_refused = 1;
 #elif RULE == 9
 	/* only option keys, twice: refused or fetch-all; never a crash */
 	cJSON_AddItemToObject(rule, "caseInsensitive", cJSON_CreateTrue()); cJSON_AddItemToObject(rule, "caseInsensitive", cJSON_CreateTrue()); expect_match = 1;
